@@ -4,26 +4,32 @@ import os
 
 import vlib
 
-PROPS = ['Rangers.Props.C02', 'Rangers.Props.C02Facts']
+PROPS = ['Rangers.Props.C02', 'Rangers.Props.C02Facts', 'Rangers.Props.C02Live', 'Rangers.Props.C02Iter']
 DRIVERS = ['C02']
 META = dict(
     level='proof',
-    technique='Lean 4 theorems (34 obligations, core Lean, no Mathlib) about an executable transcription of '
-              'src/storage/trie: insert/delete keep the minimal form, minimal form is unique for a content '
-              '(canon (iter t) = t), hence root history-independence for every hash function; node encoding = '
-              'Yellow Paper c(J,i), root = TRIE(J); reads = last write; iteration complete and ordered; '
-              'commit+reload identity under no-collision; panic branches unreachable. Model tied to the source by '
-              'differential execution (T-corr, ~138k op lines quick) and re-extracted source facts (T-gen).',
+    technique='Lean 4 theorems (52 obligations, core Lean, no Mathlib) about executable transcriptions of '
+              'src/storage/trie: (a) the fully loaded trie: insert/delete keep the minimal form, minimal form is unique '
+              'for a content, root history-independent for every hash function, node encoding = Yellow Paper c(J,i), '
+              'reads = last write, iteration complete and ordered, panic branches unreachable; (b) the live trie '
+              '(cache flags, hash nodes, lazy resolution, cache generations, node database): every operation refines (a) '
+              'over whole histories under a no-collision hypothesis; (c) decodeNode(encode n) = expandNode for every '
+              'node the hasher emits (RLP splitting modelled). Tied to the source by differential execution incl. a '
+              'structural dump of the in-memory trie via reflection (T-corr) and re-extracted source facts (T-gen).',
     level_text='machine-checked proof over a model of the code; model tied by correspondence and generated facts',
     level_note='theorems hold for every hash function H; Keccak-256 is executed (Lean) and compared with common/sha3 on '
-               'sampled inputs, not proved. Lazy resolution of partially unloaded tries and the disk/RLP-decode path '
-               'are covered by the correspondence run only. The "ascending key order" clause is false for keys that are '
+               'sampled inputs, not proved. The NodeIterator stack machine is proved equal to its specification iterFrom for full '
+               'iteration; iteration from a non-empty start key (seek) is checked at run time and by correspondence only. '
+               'Cap/Dereference are C03. '
+               'The "ascending key order" clause is false for keys that are '
                'prefixes of one another (known finding iter-order-prefix-keys; proved counterexample).',
     trusted_base=['Lean 4 kernel (leanchecker in thorough)', 'harness/cmd/c02 and gen/cmd/c02facts (Go, ours)',
                   'Keccak-256: Lean and Go implementations agree on ~1000 sampled inputs per run',
                   'storage/rlp encoder agrees with the model node encoder (observed through node hashes)',
                   'middleware/db MemDatabase as the disk store (no goleveldb)'],
-    assumptions=['no two different nodes written by one commit share a hash (hypothesis of expand_collapse only)',
+    assumptions=['HashOK H for the live-trie run theorems: no collision among node encodings, no node hashes to emptyRoot/zero, 32-byte digests',
+                 'node blobs shorter than 2^64 bytes (decodeNode theorem)',
+                 'no two different nodes written by one commit share a hash (hypothesis of expand_collapse only)',
                  'H [0x80] = emptyRoot (hypothesis of root_eq_yellow_paper; checked for Keccak-256 by kernel evaluation)'],
     rule='distinct op lines sent to both implementation and model whose answer is not bad-op',
     explanation='design/C02.md',
